@@ -77,6 +77,50 @@ pub fn run(cli: &Cli) {
             }
         }
     });
+    // the third cipher: X25519 (age) for shared folders
+    rt.block_on(async {
+        let c = Cipher::X25519;
+        let ids: Vec<age::x25519::Identity> = (0..3).map(|_| age::x25519::Identity::generate()).collect();
+        for (ki, id) in ids.iter().enumerate() {
+            let key = PrivateKey::Asymmetric(id.clone());
+            for sz in &sizes {
+                if *sz > (1 << 20) { continue; }
+                let pt: Vec<u8> = (0..*sz).map(|_| rng.below(256) as u8).collect();
+                let pack = match c.encrypt_asymmetric(&key, &pt, vec![id.to_public()]).await { Ok(p) => p, Err(e) => { rep.spec_fail("c10-x25519-encrypt-error", json!({"size": sz}), &e.to_string()); continue; } };
+                let back = c.decrypt_asymmetric(&key, &pack).await;
+                rep.case(&format!("rt:x25519:{}:{}", ki, sz), true);
+                if back.as_ref().ok() != Some(&pt) { rep.spec_fail("c10-decrypt-does-not-return-plaintext:x25519", json!({"size": sz}), "decrypt(encrypt(p)) != p"); }
+                for (kj, other) in ids.iter().enumerate() {
+                    if kj == ki { continue; }
+                    let r = c.decrypt_asymmetric(&PrivateKey::Asymmetric(other.clone()), &pack).await;
+                    rep.case(&format!("wrongkey:x25519:{}:{}:{}", ki, kj, sz), true);
+                    if r.is_ok() { rep.spec_fail("c10-decrypts-with-other-key:x25519", json!({"size": sz}), "decryption with another identity returned data"); }
+                }
+                // a symmetric cipher must not open it, nor a symmetric key
+                for c2 in &ciphers { if c2.decrypt_symmetric(&keys[0], &pack).await.is_ok() { rep.spec_fail("c10-opened-by-other-cipher", json!({"sealed": "x25519", "with": name(c2)}), "an age pack was opened by a symmetric cipher"); } }
+                if c.decrypt_asymmetric(&keys[0], &pack).await.is_ok() { rep.spec_fail("c10-x25519-opened-with-symmetric-key", json!({}), "asymmetric decryption accepted a symmetric key"); }
+                // tamper with the ciphertext (header, stanza, payload) and the nonce field
+                let n = pack.ciphertext.len();
+                let positions: Vec<usize> = if n * 8 <= 8 * 400 && !pack.ciphertext.is_empty() { (0..n * 8).step_by(if thorough { 1 } else { 7 }).collect() } else { (0..(if thorough { 400 } else { 60 })).map(|_| rng.below((n * 8) as u64) as usize).collect() };
+                for bit in positions {
+                    let mut ct = pack.ciphertext.clone(); ct[bit / 8] ^= 1 << (bit % 8);
+                    let r = c.decrypt_asymmetric(&key, &AeadPack { nonce: pack.nonce.clone(), ciphertext: ct }).await;
+                    rep.case(&format!("bit:x25519:{}:{}:{}", ki, sz, bit), true);
+                    if let Ok(out) = r { if out != pt || true { rep.spec_fail("c10-tampered-pack-decrypts:x25519", json!({"size": sz, "bit": bit, "same_plaintext": out == pt}), "an age pack with one flipped bit decrypted instead of failing"); } }
+                }
+                let mut variants: Vec<(&str, Vec<u8>)> = vec![];
+                if n > 0 { let mut t = pack.ciphertext.clone(); t.pop(); variants.push(("truncated", t)); }
+                { let mut e = pack.ciphertext.clone(); e.push(0); variants.push(("extended", e)); }
+                variants.push(("empty", vec![]));
+                for (what, ct) in variants {
+                    let r = c.decrypt_asymmetric(&key, &AeadPack { nonce: pack.nonce.clone(), ciphertext: ct }).await;
+                    rep.case(&format!("struct:x25519:{}:{}:{}", ki, sz, what), true);
+                    if r.is_ok() { rep.spec_fail(&format!("c10-tampered-pack-decrypts:x25519:{what}"), json!({"size": sz}), "a structurally modified age pack decrypted instead of failing"); }
+                }
+                rep.count(&format!("x25519:size{}", sz));
+            }
+        }
+    });
     // key derivation: distinct (password ++ seed, salt) give distinct keys; same inputs the same key
     let pws = ["correct horse", "correct horse battery", "p"];
     let salts: Vec<_> = (0..2).map(|_| KeyDerivation::generate_salt()).collect();
@@ -103,7 +147,7 @@ pub fn run(cli: &Cli) {
     }
     rep.diff_streams("corr:crypto", &ops, &imp);
     rep.sample(json!({"ciphers": ["xchacha20poly1305", "aes-gcm-256"], "sizes": sizes}));
-    rep.rule = "both symmetric ciphers x 3 random keys x plaintext sizes (0 .. multi-MB): round trip, every other key, the other cipher (nonce-length gate), every single-bit flip of nonce and ciphertext for packs up to 64 bytes and sampled bits above, \\
+    rep.rule = "the two symmetric ciphers x 3 random keys (and X25519/age x 3 identities: round trip, other identities, symmetric ciphers and keys refused, bit flips over header / stanza / payload, truncation, extension) x plaintext sizes (0 .. multi-MB): round trip, every other key, the other cipher (nonce-length gate), every single-bit flip of nonce and ciphertext for packs up to 64 bytes and sampled bits above, \\
         truncation / extension / nonce swap / empty ciphertext; KDF: all pairs of a pool of passwords x salts x seeds (Argon2id; BalloonHash in the thorough tier). These are differential TESTS of the primitives the model takes as definitions.".into();
     rep.write(&cli.out);
 }
